@@ -24,3 +24,4 @@ func TestC20(t *testing.T) { simkit.Main(t, HarnessC20) }
 func TestC17(t *testing.T) { simkit.Main(t, HarnessC17) }
 func TestC18(t *testing.T) { simkit.Main(t, HarnessC18) }
 func TestC16(t *testing.T) { simkit.Main(t, HarnessC16) }
+func TestC15(t *testing.T) { simkit.Main(t, HarnessC15) }
